@@ -226,6 +226,11 @@ type KeyEnvelope struct {
 func (k KeyEnvelope) Unwrap(kek []byte) (lorawan.AES128Key, error) {
 	var key lorawan.AES128Key
 
+	// a wrapped 128 bit key is 24 bytes (RFC 3394: 64 bit integrity value + key)
+	if len(k.AESKey) != len(key)+8 {
+		return key, errors.New("unwrap key error: the wrapped key must be 24 bytes")
+	}
+
 	block, err := aes.NewCipher(kek)
 	if err != nil {
 		return key, errors.Wrap(err, "new cipher error")
